@@ -562,4 +562,4 @@ def run_shard(ctx):
                 pass
         return t
 
-    ctx.run_given(mk, ctx.budget(48000, 800000))
+    ctx.run_given(mk, ctx.budget(48000, 500000))
